@@ -56,6 +56,11 @@ CHECKS = {
          'A 38-template alphabet (plain / aliased / relative level 1-2 / star imports, imports of packages, sub-modules and re-imported names, multi-target imports, alias assignments through names and module paths) is placed in 9 consumer scopes (module, package __init__, sub-package __init__, module of another root, a class body in each, a nested class body). Each project is first imported by CPython (statements it rejects or that bind a name twice are filtered), then analysed by pydoctor from the same files. Every name bound in the scope and every dotted extension up to 3 parts that CPython evaluates to an ID-carrying object is resolved with resolveName: a returned object must carry the same ID (soundness); names imported directly from their defining module and paths through module aliases must resolve (completeness).',
          'Trusted: CPython import machinery as oracle; ID docstrings as identity. Self-imports (a module importing itself) count as cycles and are not judged.',
          'DESIGN.md section 5, C04'),
+ 'C08': ('fault_enumeration',
+         'exhaustive enumeration of markup-token strings x docformats x process-types x object kinds through the real parse/render pipeline, plus exhaustive fault injection at every parser/renderer/linker entry point',
+         'Input half: every string of up to 3 tokens over a 16-token interaction-prone subset and up to 2 tokens over the full 38-token markup alphabet (epytext/reST/google/numpy markup fragments, field tags, control characters, lone surrogate, U+FFFF, U+00A0, CR) x 5 docformats x {process-types} x 5 object kinds (thorough: up to 3 over all 38 tokens, up to 4 over the subset: ~600 k docstrings) is installed through Documentable.setDocstring and rendered (parsed form, body, summary, toc, all flattened). Nothing may raise or hang; when the parser or the conversion gives up (decided by calling them directly) the object must be reported and the complete original text shown; problems docutils recovers from must be reported; a sibling object must render byte-identically. Fault half: RuntimeError/AssertionError/RecursionError/KeyError injected at each of 29 parser, to_node/to_stan, node2stan, linker, summary, toc and type-renderer entry points x 5 formats x {process-types}: no escape from body, summary or toc; body faults are reported and the text stays visible.',
+         'Trusted: direct parser/to_stan calls as the definition of "gave up"; the token alphabet; harness-side patching as the fault model (an exception at function entry).',
+         'DESIGN.md section 5, C08'),
 }
 
 
